@@ -1,3 +1,445 @@
-import Tickit.Model.RectSet
+import Tickit.Proof.RectSet
+import Tickit.Proof.RectSetInv
+import Tickit.Proof.RectSetTerm
+import Tickit.Gen.Leaf
+/-
+  C05 — A rectangle set is exactly the union of what was added minus what was subtracted.
+
+  `RectSet.add`, `subtract`, `contains` take a `fuel` (the C loops restart and recurse on data they
+  rewrite); every correctness theorem holds for *every* fuel: "whenever the function returns, …", and the
+  termination theorems at the end show that on arrays that have the invariant they do return.  Cells range
+  over all of `Int × Int`; histories over all finite lists of operations.
+
+  Clauses of the property and where they are proved:
+    exact region after any history ............ `history_exact_full` (with `history_terminates`)
+    non-empty, pairwise disjoint, sorted ...... `Inv` in `history_exact_full` (`inv_def` spells it out)
+    contains / intersects exact ............... `contains_iff_full`, `intersects_iff`, `history_queries`
+    single operations ......................... `add_spec`+`add_inv`, `subtract_spec`, `translate_spec`+`translate_inv`, `clear_spec`
+-/
 namespace Tickit.Props.C05
+open Tickit Tickit.Rect Tickit.RectSet
+
+/-- Every rectangle mentioned by an operation is non-empty (the property's "arbitrary non-empty rectangles"). -/
+def Op.Valid : Op → Prop
+  | .add r => r.Nonempty
+  | .sub r => r.Nonempty
+  | _ => True
+
+/-! ### single operations -/
+
+/-- `add` covers exactly the old region plus the new rectangle, and stores only non-empty rectangles. -/
+theorem add_spec (fuel : Nat) (s s' : List Rect) (r : Rect)
+    (h : RectSet.add fuel s r = some s') (hr : r.Nonempty) (hs : ∀ x ∈ s, x.Nonempty) :
+    (∀ x ∈ s', x.Nonempty) ∧ ∀ l c, Covered s' l c ↔ (Covered s l c ∨ r.Mem l c) :=
+  add_region h hr hs
+
+/-- `subtract`, whatever the shape of the array: nothing outside the hole is lost, nothing is invented,
+    stored rectangles stay non-empty.  (No cell of the hole stays covered: `subtract_removes` below, which
+    needs the invariant.) -/
+theorem subtract_bounds (fuel : Nat) (s s' : List Rect) (r : Rect)
+    (h : RectSet.subtract fuel s r = some s') (hr : r.Nonempty) (hs : ∀ x ∈ s, x.Nonempty) :
+    (∀ x ∈ s', x.Nonempty) ∧
+    (∀ l c, Covered s' l c → Covered s l c) ∧
+    (∀ l c, Covered s l c → ¬ r.Mem l c → Covered s' l c) := by
+  rw [subtract_of_nonempty fuel s r hr] at h
+  exact subtractFrom_bounds fuel s r 0 s' h hr hs
+
+theorem translate_spec (s : List Rect) (d k : Int) (hs : ∀ x ∈ s, x.Nonempty) :
+    (∀ x ∈ RectSet.translate s d k, x.Nonempty) ∧
+    ∀ l c, Covered (RectSet.translate s d k) l c ↔ Covered s (l - d) (c - k) :=
+  ⟨nonempty_translate s d k hs, fun l c => covered_translate s d k l c⟩
+
+theorem clear_spec (s : List Rect) : ∀ l c, ¬ Covered (RectSet.clear s) l c :=
+  fun l c => covered_nil l c
+
+/-! ### queries -/
+
+/-- `intersects` answers exactly "some cell of the query is covered". -/
+theorem intersects_iff (s : List Rect) (q : Rect) (hq : q.Nonempty) (hs : ∀ x ∈ s, x.Nonempty) :
+    RectSet.intersects s q = true ↔ ∃ l c, q.Mem l c ∧ Covered s l c :=
+  RectSet.intersects_iff s q hq hs
+
+/-- `contains` answering "yes" is always right: every cell of the query is covered. -/
+theorem contains_sound (fuel : Nat) (s : List Rect) (q : Rect) (hq : q.Nonempty)
+    (h : RectSet.contains fuel s q = some true) : ∀ l c, q.Mem l c → Covered s l c :=
+  RectSet.contains_sound fuel s q h hq
+
+/-- `contains` terminates: fuel proportional to the height of the query suffices. -/
+theorem contains_terminates (s : List Rect) (q : Rect) :
+    ∀ fuel : Nat, 0 < fuel → q.lines < (fuel : Int) → RectSet.contains fuel s q ≠ none := by
+  intro fuel
+  induction fuel generalizing q with
+  | zero => intro h; omega
+  | succ n ih =>
+    intro _ hlt
+    unfold RectSet.contains
+    split
+    · simp
+    · rename_i r _
+      split
+      · simp
+      · split
+        · rename_i hcut
+          have h1 : (Rect.initBounded r.bottom q.left q.bottom q.right).lines < (n : Int) := by
+            unfold Rect.initBounded Rect.bottom at *; simp only; omega
+          have h0 : 0 < n := by
+            unfold Rect.initBounded Rect.bottom at *; simp only at h1; omega
+          have := ih (Rect.initBounded r.bottom q.left q.bottom q.right) h0 h1
+          simp only
+          split
+          · contradiction
+          · simp
+          · simp
+        · simp
+
+/-! ### histories -/
+
+/-- All operations of a history are valid. -/
+def Valid (ops : List Op) : Prop := ∀ o ∈ ops, Op.Valid o
+
+/-- Generalised history statement: running `ops` from a state that covers a superset of `reg` ends in a
+    state covering a superset of the region `ops` makes out of `reg` — **no cell is ever lost**. -/
+theorem run_nothing_lost (fuel : Nat) : ∀ (ops : List Op) (s s' : List Rect) (reg : Int → Int → Prop),
+    runOps fuel s ops = some s' → Valid ops → (∀ x ∈ s, x.Nonempty) →
+    (∀ l c, reg l c → Covered s l c) →
+    (∀ x ∈ s', x.Nonempty) ∧ ∀ l c, ops.foldl Op.apply reg l c → Covered s' l c := by
+  intro ops
+  induction ops with
+  | nil =>
+    intro s s' reg h _ hs hreg
+    simp [runOps] at h; subst h
+    exact ⟨hs, hreg⟩
+  | cons o ops ih =>
+    intro s s' reg h hv hs hreg
+    have hvo : Op.Valid o := hv o (by simp)
+    have hvr : Valid ops := fun x hx => hv x (by simp [hx])
+    cases o with
+    | add r =>
+      simp only [runOps, Option.bind_eq_some_iff] at h
+      obtain ⟨s1, h1, h2⟩ := h
+      obtain ⟨a1, a2⟩ := add_region h1 hvo hs
+      refine ih s1 s' _ h2 hvr a1 ?_
+      intro l c hh
+      simp only [Op.apply] at hh
+      rw [a2 l c]
+      rcases hh with hh | hh
+      · exact Or.inl (hreg l c hh)
+      · exact Or.inr hh
+    | sub r =>
+      simp only [runOps, Option.bind_eq_some_iff] at h
+      obtain ⟨s1, h1, h2⟩ := h
+      rw [subtract_of_nonempty fuel s r hvo] at h1
+      obtain ⟨a1, _, a3⟩ := subtractFrom_bounds fuel s r 0 s1 h1 hvo hs
+      refine ih s1 s' _ h2 hvr a1 ?_
+      intro l c hh
+      simp only [Op.apply] at hh
+      exact a3 l c (hreg l c hh.1) hh.2
+    | xl d k =>
+      simp only [runOps] at h
+      refine ih _ s' _ h hvr (nonempty_translate s d k hs) ?_
+      intro l c hh
+      simp only [Op.apply] at hh
+      exact (covered_translate s d k l c).2 (hreg _ _ hh)
+    | clear =>
+      simp only [runOps] at h
+      refine ih _ s' _ h hvr (by simp [RectSet.clear]) ?_
+      intro l c hh
+      simp only [Op.apply] at hh
+
+/-- **Nothing is lost**: after any history of add/subtract/translate/clear from the empty set, every
+    cell of the reference region is covered by the stored rectangles, which are all non-empty. -/
+theorem history_nothing_lost (fuel : Nat) (ops : List Op) (s : List Rect)
+    (h : runOps fuel [] ops = some s) (hv : Valid ops) :
+    (∀ x ∈ s, x.Nonempty) ∧ ∀ l c, refRegion ops l c → Covered s l c :=
+  run_nothing_lost fuel ops [] s (fun _ _ => False) h hv (by simp) (by intro l c h; exact h.elim)
+
+/-- A history without subtraction. -/
+def NoSub (ops : List Op) : Prop := ∀ o ∈ ops, ∀ r, o ≠ .sub r
+
+theorem run_exact_noSub (fuel : Nat) : ∀ (ops : List Op) (s s' : List Rect) (reg : Int → Int → Prop),
+    runOps fuel s ops = some s' → Valid ops → NoSub ops → (∀ x ∈ s, x.Nonempty) →
+    (∀ l c, Covered s l c ↔ reg l c) →
+    ∀ l c, Covered s' l c ↔ ops.foldl Op.apply reg l c := by
+  intro ops
+  induction ops with
+  | nil =>
+    intro s s' reg h _ _ _ hreg
+    simp [runOps] at h; subst h
+    exact hreg
+  | cons o ops ih =>
+    intro s s' reg h hv hn hs hreg
+    have hvo : Op.Valid o := hv o (by simp)
+    have hvr : Valid ops := fun x hx => hv x (by simp [hx])
+    have hnr : NoSub ops := fun x hx => hn x (by simp [hx])
+    cases o with
+    | add r =>
+      simp only [runOps, Option.bind_eq_some_iff] at h
+      obtain ⟨s1, h1, h2⟩ := h
+      obtain ⟨a1, a2⟩ := add_region h1 hvo hs
+      refine ih s1 s' _ h2 hvr hnr a1 ?_
+      intro l c
+      simp only [Op.apply]
+      rw [a2 l c, hreg l c]
+    | sub r => exact absurd rfl (hn (.sub r) (by simp) r)
+    | xl d k =>
+      simp only [runOps] at h
+      refine ih _ s' _ h hvr hnr (nonempty_translate s d k hs) ?_
+      intro l c
+      simp only [Op.apply]
+      rw [covered_translate, hreg]
+    | clear =>
+      simp only [runOps] at h
+      refine ih _ s' _ h hvr hnr (by simp [RectSet.clear]) ?_
+      intro l c
+      simp only [Op.apply, RectSet.clear]
+      exact ⟨fun h => (covered_nil l c h).elim, fun h => h.elim⟩
+
+/-- **Exactness without subtract** (does not need the invariant): for histories of add/translate/clear the
+    covered cells are exactly the reference region.  The full statement is `history_exact_full` below. -/
+theorem history_exact_partial (fuel : Nat) (ops : List Op) (s : List Rect)
+    (h : runOps fuel [] ops = some s) (hv : Valid ops) (hn : NoSub ops) :
+    ∀ l c, Covered s l c ↔ refRegion ops l c :=
+  run_exact_noSub fuel ops [] s (fun _ _ => False) h hv hn (by simp)
+    (fun l c => ⟨fun h => (covered_nil l c h).elim, fun h => h.elim⟩)
+
+/-! ### the invariant of the stored array
+
+`RectSet.Inv s` (defined in `Proof/RectSetInv.lean`, restated by `inv_def`): members non-empty, pairwise
+disjoint, strictly sorted by (top, left), no two members share a vertical edge segment of positive length
+(`NoVEdge`), and no two members with equal columns are vertically adjacent (`NoStack`).  The last clause
+is needed: without it `subtract` is wrong (`subtract_needs_noStack`), and `add` maintains it. -/
+
+theorem inv_def (s : List Rect) :
+    Inv s ↔ ((∀ x ∈ s, x.Nonempty) ∧ s.Pairwise Rect.Disjoint ∧
+      s.Pairwise (fun a b => a.top < b.top ∨ (a.top = b.top ∧ a.left < b.left)) ∧
+      (∀ a ∈ s, ∀ b ∈ s, a ≠ b →
+        ¬ ((a.right = b.left ∨ b.right = a.left) ∧ a.top < b.bottom ∧ b.top < a.bottom)) ∧
+      (∀ a ∈ s, ∀ b ∈ s, ¬ (a.left = b.left ∧ a.right = b.right ∧ a.bottom = b.top))) := Iff.rfl
+
+/-- `add` preserves the invariant, for every fuel. -/
+theorem add_inv (fuel : Nat) (s s' : List Rect) (r : Rect)
+    (h : RectSet.add fuel s r = some s') (hr : r.Nonempty) (hs : Inv s) : Inv s' :=
+  (inv_iff s').2 (add_invS h hr ((inv_iff s).1 hs))
+
+theorem addMany_inv (fuel : Nat) (s ps s' : List Rect)
+    (h : RectSet.addMany fuel s ps = some s') (hps : ∀ p ∈ ps, p.Nonempty) (hs : Inv s) : Inv s' :=
+  (inv_iff s').2 (addMany_invS h hps ((inv_iff s).1 hs))
+
+theorem translate_inv (s : List Rect) (d k : Int) (hs : Inv s) : Inv (RectSet.translate s d k) :=
+  (inv_iff _).2 (invS_translate ((inv_iff s).1 hs) d k)
+
+theorem clear_inv (s : List Rect) : Inv (RectSet.clear s) := (inv_iff _).2 invS_nil
+
+/-- **`contains` is exact**: it answers "yes" exactly when every cell of the query is covered. -/
+theorem contains_iff_full (fuel : Nat) (s : List Rect) (q : Rect) (b : Bool) (hs : Inv s) (hq : q.Nonempty)
+    (h : RectSet.contains fuel s q = some b) : (b = true ↔ ∀ l c, q.Mem l c → Covered s l c) := by
+  cases b with
+  | true => exact ⟨fun _ => RectSet.contains_sound fuel s q h hq, fun _ => rfl⟩
+  | false =>
+    obtain ⟨l, c, h1, h2⟩ := contains_complete fuel s q h ((inv_iff s).1 hs) hq
+    exact ⟨fun hh => Bool.noConfusion hh, fun hh => absurd (hh l c h1) h2⟩
+
+/-- Without `NoVEdge` the shortcut of `contains` is wrong (DESIGN §7): this array is disjoint, sorted and
+    non-empty and covers the query, yet the answer is "no". -/
+theorem contains_needs_noVEdge :
+    RectSet.contains 10 [⟨0, 5, 6, 5⟩, ⟨2, 0, 4, 5⟩] ⟨2, 0, 2, 10⟩ = some false := by decide +kernel
+
+/-- Without `NoStack` the index loop of `subtract` skips a member: this array is disjoint, sorted,
+    non-empty and has no shared vertical edge, yet `(3,3,1,1)` survives the subtraction of `(2,2,2,2)`.
+    (Not reachable through the API: `add` never leaves two stackable members, see `add_inv`.) -/
+theorem subtract_needs_noStack :
+    RectSet.subtract 100 [⟨0, 0, 1, 2⟩, ⟨1, 0, 1, 2⟩, ⟨2, 0, 1, 4⟩, ⟨3, 3, 1, 1⟩] ⟨2, 2, 2, 2⟩ =
+      some [⟨0, 0, 3, 2⟩, ⟨3, 3, 1, 1⟩] := by decide +kernel
+
+/-! ### subtract, and the full history statement -/
+
+/-- **`subtract` is exact and preserves the invariant**: the index loop of `tickit_rectset_subtract` visits
+    every member that meets the hole, although re-adding the remains rearranges the array under it. -/
+theorem subtract_removes (fuel : Nat) (s s' : List Rect) (r : Rect) (hs : Inv s) (hr : r.Nonempty)
+    (h : RectSet.subtract fuel s r = some s') : Inv s' ∧ ∀ l c, Covered s' l c → ¬ r.Mem l c := by
+  rw [subtract_of_nonempty fuel s r hr] at h
+  obtain ⟨h1, h2⟩ := subtractFrom_clean fuel s r 0 s' h ((inv_iff s).1 hs) hr
+    (by intro j m hj; omega)
+  refine ⟨(inv_iff s').2 h1, ?_⟩
+  rintro l c ⟨m, hm, hmem⟩ hrm
+  have := h2 m hm
+  rs_omega
+
+theorem subtract_spec (fuel : Nat) (s s' : List Rect) (r : Rect) (hs : Inv s) (hr : r.Nonempty)
+    (h : RectSet.subtract fuel s r = some s') :
+    Inv s' ∧ ∀ l c, Covered s' l c ↔ (Covered s l c ∧ ¬ r.Mem l c) := by
+  obtain ⟨h1, h2⟩ := subtract_removes fuel s s' r hs hr h
+  obtain ⟨_, h3, h4⟩ := subtract_bounds fuel s s' r h hr hs.1
+  exact ⟨h1, fun l c => ⟨fun hc => ⟨h3 l c hc, h2 l c hc⟩, fun hc => h4 l c hc.1 hc.2⟩⟩
+
+theorem run_exact (fuel : Nat) : ∀ (ops : List Op) (s s' : List Rect) (reg : Int → Int → Prop),
+    runOps fuel s ops = some s' → Valid ops → Inv s → (∀ l c, Covered s l c ↔ reg l c) →
+    Inv s' ∧ ∀ l c, Covered s' l c ↔ ops.foldl Op.apply reg l c := by
+  intro ops
+  induction ops with
+  | nil =>
+    intro s s' reg h _ hs hreg
+    simp [runOps] at h; subst h
+    exact ⟨hs, hreg⟩
+  | cons o ops ih =>
+    intro s s' reg h hv hs hreg
+    have hvo : Op.Valid o := hv o (by simp)
+    have hvr : Valid ops := fun x hx => hv x (by simp [hx])
+    cases o with
+    | add r =>
+      simp only [runOps, Option.bind_eq_some_iff] at h
+      obtain ⟨s1, h1, h2⟩ := h
+      obtain ⟨_, a2⟩ := add_region h1 hvo hs.1
+      refine ih s1 s' _ h2 hvr (add_inv fuel s s1 r h1 hvo hs) ?_
+      intro l c
+      simp only [Op.apply]
+      rw [a2 l c, hreg l c]
+    | sub r =>
+      simp only [runOps, Option.bind_eq_some_iff] at h
+      obtain ⟨s1, h1, h2⟩ := h
+      obtain ⟨a1, a2⟩ := subtract_spec fuel s s1 r hs hvo h1
+      refine ih s1 s' _ h2 hvr a1 ?_
+      intro l c
+      simp only [Op.apply]
+      rw [a2 l c, hreg l c]
+    | xl d k =>
+      simp only [runOps] at h
+      refine ih _ s' _ h hvr (translate_inv s d k hs) ?_
+      intro l c
+      simp only [Op.apply]
+      rw [covered_translate, hreg]
+    | clear =>
+      simp only [runOps] at h
+      refine ih _ s' _ h hvr (clear_inv s) ?_
+      intro l c
+      simp only [Op.apply, RectSet.clear]
+      exact ⟨fun h => (covered_nil l c h).elim, fun h => h.elim⟩
+
+/-- **The property**: after any history of add/subtract/translate/clear from the empty set, the stored
+    rectangles are non-empty, pairwise disjoint, sorted by top then left (`Inv`), and cover exactly the
+    reference region. -/
+theorem history_exact_full (fuel : Nat) (ops : List Op) (s : List Rect)
+    (h : runOps fuel [] ops = some s) (hv : Valid ops) :
+    Inv s ∧ ∀ l c, Covered s l c ↔ refRegion ops l c :=
+  run_exact fuel ops [] s (fun _ _ => False) h hv (clear_inv [])
+    (fun l c => ⟨fun h => (covered_nil l c h).elim, fun h => h.elim⟩)
+
+/-- The queries after any history: exact answers. -/
+theorem history_queries (fuel : Nat) (ops : List Op) (s : List Rect) (q : Rect)
+    (h : runOps fuel [] ops = some s) (hv : Valid ops) (hq : q.Nonempty) :
+    (RectSet.intersects s q = true ↔ ∃ l c, q.Mem l c ∧ refRegion ops l c) ∧
+    ∀ fuel' b, RectSet.contains fuel' s q = some b → (b = true ↔ ∀ l c, q.Mem l c → refRegion ops l c) := by
+  obtain ⟨hinv, hreg⟩ := history_exact_full fuel ops s h hv
+  refine ⟨?_, ?_⟩
+  · rw [intersects_iff s q hq hinv.1]
+    constructor
+    · rintro ⟨l, c, h1, h2⟩; exact ⟨l, c, h1, (hreg l c).1 h2⟩
+    · rintro ⟨l, c, h1, h2⟩; exact ⟨l, c, h1, (hreg l c).2 h2⟩
+  · intro fuel' b hb
+    rw [contains_iff_full fuel' s q b hinv hq hb]
+    constructor
+    · intro hh l c hm; exact (hreg l c).1 (hh l c hm)
+    · intro hh l c hm; exact (hreg l c).2 (hh l c hm)
+
+/-! ### termination: the fuel is only a proof device
+
+On arrays that have the invariant, `add` and `subtract` return for every sufficiently large fuel (and, by
+`add_mono`/`subtractFrom_mono`, with the same result for every larger fuel); so does every valid history.
+The measure of a call of `add` is (cells of the rectangle already covered, unit vertical edges of the
+rectangle with a covered cell on the outside, length of the array), lexicographically. -/
+
+theorem add_terminates (s : List Rect) (r : Rect) (hs : Inv s) (hr : r.Nonempty) :
+    ∃ N, ∀ fuel, N ≤ fuel → RectSet.add fuel s r ≠ none := by
+  obtain ⟨N, hN⟩ := RectSet.add_terminates ((inv_iff s).1 hs) hr
+  exact ⟨N, fun fuel hf => by obtain ⟨s', h⟩ := hN fuel hf; simp [h]⟩
+
+theorem subtract_terminates (s : List Rect) (r : Rect) (hs : Inv s) (hr : r.Nonempty) :
+    ∃ N, ∀ fuel, N ≤ fuel → RectSet.subtract fuel s r ≠ none := by
+  obtain ⟨N, hN⟩ := RectSet.subtract_terminates ((inv_iff s).1 hs) hr
+  exact ⟨N, fun fuel hf => by obtain ⟨s', h⟩ := hN fuel hf; simp [h]⟩
+
+theorem run_terminates : ∀ (ops : List Op) (s : List Rect), Inv s → Valid ops →
+    ∃ N, ∀ fuel, N ≤ fuel → ∃ s', runOps fuel s ops = some s' := by
+  intro ops
+  induction ops with
+  | nil => intro s _ _; exact ⟨0, fun _ _ => ⟨s, rfl⟩⟩
+  | cons o ops ih =>
+    intro s hs hv
+    have hvo : Op.Valid o := hv o (by simp)
+    have hvr : Valid ops := fun x hx => hv x (by simp [hx])
+    cases o with
+    | add r =>
+      obtain ⟨N1, hN1⟩ := RectSet.add_terminates ((inv_iff s).1 hs) hvo
+      obtain ⟨s1, h1⟩ := hN1 N1 (Nat.le_refl _)
+      obtain ⟨N2, hN2⟩ := ih s1 (add_inv N1 s s1 r h1 hvo hs) hvr
+      refine ⟨max N1 N2, fun fuel hf => ?_⟩
+      obtain ⟨s', hs'⟩ := hN2 fuel (by omega)
+      exact ⟨s', by simp only [runOps, add_mono h1 (by omega : N1 ≤ fuel), Option.bind_some]; exact hs'⟩
+    | sub r =>
+      obtain ⟨N1, hN1⟩ := RectSet.subtract_terminates ((inv_iff s).1 hs) hvo
+      obtain ⟨s1, h1⟩ := hN1 N1 (Nat.le_refl _)
+      obtain ⟨N2, hN2⟩ := ih s1 (subtract_removes N1 s s1 r hs hvo h1).1 hvr
+      refine ⟨max N1 N2, fun fuel hf => ?_⟩
+      obtain ⟨s', hs'⟩ := hN2 fuel (by omega)
+      have h1' : RectSet.subtract fuel s r = some s1 := by
+        rw [subtract_of_nonempty _ _ _ hvo] at h1 ⊢
+        exact subtractFrom_mono h1 (by omega)
+      exact ⟨s', by simp only [runOps, h1', Option.bind_some]; exact hs'⟩
+    | xl d k =>
+      obtain ⟨N, hN⟩ := ih _ (translate_inv s d k hs) hvr
+      exact ⟨N, fun fuel hf => by simpa only [runOps] using hN fuel hf⟩
+    | clear =>
+      obtain ⟨N, hN⟩ := ih _ (clear_inv s) hvr
+      exact ⟨N, fun fuel hf => by simpa only [runOps] using hN fuel hf⟩
+
+/-- **Every valid history runs to completion** (for every sufficiently large fuel), and then
+    `history_exact_full` and `history_queries` apply to its result. -/
+theorem history_terminates (ops : List Op) (hv : Valid ops) :
+    ∃ N, ∀ fuel, N ≤ fuel → ∃ s, runOps fuel [] ops = some s ∧
+      Inv s ∧ ∀ l c, Covered s l c ↔ refRegion ops l c := by
+  obtain ⟨N, hN⟩ := run_terminates ops [] (clear_inv []) hv
+  refine ⟨N, fun fuel hf => ?_⟩
+  obtain ⟨s, hs⟩ := hN fuel hf
+  exact ⟨s, hs, history_exact_full fuel ops s hs hv⟩
+
+/-! ### the generated leaf function is the model's -/
+
+theorem leaf_cmprect : Gen.Leaf.cmprect = RectSet.cmprect := by
+  funext a b
+  unfold Gen.Leaf.cmprect RectSet.cmprect
+  simp only [decide_eq_true_eq]
+
+/-! ### non-vacuity -/
+
+/-- The history that lost cells before the repair (fix: commit in /repo): the model, like the repaired
+    code, now keeps every cell; all hypotheses of the theorems above are met by it. -/
+example :
+    runOps 100 [] [.add ⟨0, 0, 1, 2⟩, .add ⟨0, 4, 3, 2⟩, .add ⟨0, 2, 1, 2⟩] =
+      some [⟨0, 0, 1, 6⟩, ⟨1, 4, 2, 2⟩] := by decide +kernel
+
+example : Valid [.add ⟨0, 0, 1, 2⟩, .add ⟨0, 4, 3, 2⟩, .sub ⟨0, 1, 2, 4⟩, .xl 1 1] := by
+  intro o ho; simp at ho; rcases ho with rfl | rfl | rfl | rfl <;> simp [Op.Valid, Rect.Nonempty]
+
+example : runOps 100 [] [.add ⟨0, 0, 3, 3⟩, .sub ⟨1, 1, 1, 1⟩, .xl 1 1] =
+    some [⟨1, 1, 1, 3⟩, ⟨2, 1, 1, 1⟩, ⟨2, 3, 1, 1⟩, ⟨3, 1, 1, 3⟩] := by decide +kernel
+
+example : RectSet.contains 10 [⟨0, 0, 1, 6⟩, ⟨1, 4, 2, 2⟩] ⟨0, 4, 3, 2⟩ = some true := by decide +kernel
+
+/-- `subtract` on an array that has the invariant, in a case where the remains of the split member merge
+    with the member before it (the array is rearranged under the loop index). -/
+example : Inv [⟨0, 0, 1, 2⟩, ⟨1, 0, 1, 4⟩, ⟨2, 3, 1, 1⟩] ∧
+    RectSet.subtract 100 [⟨0, 0, 1, 2⟩, ⟨1, 0, 1, 4⟩, ⟨2, 3, 1, 1⟩] ⟨1, 2, 2, 2⟩ = some [⟨0, 0, 2, 2⟩] :=
+  ⟨(inv_iff _).2 (by decide +kernel), by decide +kernel⟩
+
+/-- Fuel matters and a small amount suffices: the overlapping add below splits into three bands and needs
+    five levels of nesting (hypotheses of `add_terminates` met: the array has the invariant). -/
+example : Inv [⟨0, 0, 2, 2⟩] ∧ RectSet.add 4 [⟨0, 0, 2, 2⟩] ⟨1, 1, 2, 2⟩ = none ∧
+    RectSet.add 5 [⟨0, 0, 2, 2⟩] ⟨1, 1, 2, 2⟩ = some [⟨0, 0, 1, 2⟩, ⟨1, 0, 1, 3⟩, ⟨2, 1, 1, 2⟩] :=
+  ⟨(inv_iff _).2 (by decide +kernel), by decide +kernel, by decide +kernel⟩
+
+/-- The invariant holds of a concrete array with touching members, and `contains` answers "no" on it. -/
+example : Inv [⟨0, 0, 1, 6⟩, ⟨1, 4, 2, 2⟩] ∧
+    RectSet.contains 10 [⟨0, 0, 1, 6⟩, ⟨1, 4, 2, 2⟩] ⟨0, 3, 2, 2⟩ = some false :=
+  ⟨(inv_iff _).2 (by decide +kernel), by decide +kernel⟩
+
 end Tickit.Props.C05
